@@ -1,7 +1,7 @@
 //! C04 — proof integrity: no altered version of a valid proof is accepted.
 use crate::choices::Choices;
 use crate::curves::{Curve, CurveTag};
-use crate::drive::{guarded, pc_gens, run_prover, run_verifier, ProveOpts, VerifyOpts};
+use crate::drive::{guarded, prog_pc, run_prover, run_verifier, ProveOpts, VerifyOpts};
 use crate::mirror::ProofMirror;
 use crate::program::{gen_program, Cap, GenCfg, Program};
 use crate::props::c08::{fixture, rand_point};
@@ -162,11 +162,11 @@ fn torsion<G: CurveTag>() -> Vec<G> {
 }
 
 /// applies one edit; returns (description, mutated bytes)
-fn edit<G: CurveTag>(ch: &mut Choices, m0: &ProofMirror<G>, o: &[u8]) -> (String, Vec<u8>) {
+fn edit<G: CurveTag>(ch: &mut Choices, m0: &ProofMirror<G>, o: &[u8], prog: &Program) -> (String, Vec<u8>) {
     let mut m = m0.clone();
     let k = m.ipp.L.len();
     let npts = m.n_points();
-    let pc = pc_gens::<G>();
+    let pc = prog_pc::<G>(prog);
     match ch.weighted(&[30, 22, 14, 14, 10, 10]) {
         // point edits
         0 => {
@@ -355,7 +355,7 @@ fn edit_case<G: CurveTag>(bytes: &[u8], col: &mut Collector) -> Result<(), Failu
     let cut = bytes.len().min(32);
     let mut chi = Choices::new(&bytes[..cut]);
     let mut ch = Choices::new(&bytes[cut..]);
-    let cfg = GenCfg { max_ops1: 10, max_closures: 2, max_ops2: 6, max_commits: 3, big_gates: 16 , max_terms: 4};
+    let cfg = GenCfg { max_ops1: 10, max_closures: 2, max_ops2: 6, max_commits: 3, big_gates: 16 , max_terms: 4, wide: false};
     let mut prog = gen_program(&mut ch, G::CURVE, &cfg);
     prog.cap_v = Cap::Big;
     let p = run_prover::<G>(&prog, &ProveOpts::default());
@@ -380,7 +380,7 @@ fn edit_case<G: CurveTag>(bytes: &[u8], col: &mut Collector) -> Result<(), Failu
                 let (sel, sel2) = (chi.byte() as usize, chi.u16() as usize);
                 let d: Fr<G> = ScalarSpec::gen_nonzero(&mut chi).to_f();
                 let dp = rand_point::<G>(chi.u16() as u64);
-                let Some((desc, m2)) = compensating_edit::<G>(&m0, &chs, r, &pc_gens::<G>().B_blinding, sel, sel2, d, dp) else { continue };
+                let Some((desc, m2)) = compensating_edit::<G>(&m0, &chs, r, &prog_pc::<G>(&prog).B_blinding, sel, sel2, d, dp) else { continue };
                 let mutated = m2.to_bytes();
                 col.evals_add(1);
                 let res = judge::<G>(&prog, &p.commitments, o, &mutated);
@@ -403,7 +403,7 @@ fn edit_case<G: CurveTag>(bytes: &[u8], col: &mut Collector) -> Result<(), Failu
     }
     let nedits = 3;
     for _ in 0..nedits {
-        let (desc, mutated) = edit::<G>(&mut chi, &m0, o);
+        let (desc, mutated) = edit::<G>(&mut chi, &m0, o, &prog);
         if mutated == *o {
             col.class("edit-is-a-no-op");
             continue;
